@@ -39,6 +39,7 @@ EXTERNAL = {
     "functools.partial": PartialRef,
     "itertools.product": lambda *a, **k: list(itertools.product(*a, **k)),
     "itertools.chain": lambda *a: list(itertools.chain(*a)),
+    "itertools.islice": lambda *a: list(itertools.islice(*a)),
     "warnings.warn": lambda *a, **k: None,
     "numpy.zeros": lambda n, dtype=float: [0.0] * n,
     "pandas.DataFrame": _frame,
